@@ -9,6 +9,7 @@ from rules.astmodel import AstModel
 from sa.cfg import CFG, no_exc
 from sa.effects import Origins, is_fresh_expr, write_sites
 from sa.loader import (
+    ancestors,
     AnalysisError, FuncDef, Module, Repo, call_name, enclosing_function, last_attr, module_of,
     parent, qualname_of, unparse, walk_body,
 )  # fmt: skip
@@ -78,6 +79,13 @@ def cache_alias(check: Check, repo: Repo, scan: list[Module], accessor_mods: lis
                         ):
                             if fn.name != (alias.get(name, name)):  # type: ignore[attr-defined]
                                 hit = (d, alias.get(name, name))
+                    elif v is not None and d.kind in ("assign", "unpack", "for"):
+                        # taken out of a local container (`name, pending = stack[-1]`, `for x in frames`) that
+                        # was filled with an accessor result: the element is still the cached object
+                        for root in {x.id for x in ast.walk(v) if isinstance(x, ast.Name)}:
+                            acc = _container_holds_accessor(inner, root, accessors, alias)
+                            if acc and fn.name != acc:  # type: ignore[attr-defined]
+                                hit = (d, acc)
                 n_sites += 1
                 if hit:
                     d, acc = hit
@@ -88,6 +96,31 @@ def cache_alias(check: Check, repo: Repo, scan: list[Module], accessor_mods: lis
                     check.ob(rule, w.node, f"{w.chain}.{w.detail}(...) in {qualname_of(w.node)}", True,
                              "no reaching definition is a cache-accessor result", nontrivial=bool(defs))
     return n_sites
+
+
+def _container_holds_accessor(fn: ast.AST, name: str, accessors: dict[str, ast.AST], alias: dict[str, str]) -> str | None:
+    def accessor_in(e: ast.AST) -> str | None:
+        for c in ast.walk(e):
+            if isinstance(c, ast.Call):
+                if isinstance(c.func, ast.Attribute) and c.func.attr in accessors:
+                    return c.func.attr
+                if isinstance(c.func, ast.Name) and c.func.id in alias:
+                    return alias[c.func.id]
+        return None
+
+    for n in ast.walk(fn):
+        if isinstance(n, ast.Assign) and any(isinstance(t, ast.Name) and t.id == name for t in n.targets) \
+                and isinstance(n.value, (ast.List, ast.Tuple, ast.Dict, ast.Set)):
+            acc = accessor_in(n.value)
+            if acc:
+                return acc
+        if isinstance(n, ast.Call) and isinstance(n.func, ast.Attribute) and n.func.attr in ("append", "extend", "insert", "appendleft") \
+                and isinstance(n.func.value, ast.Name) and n.func.value.id == name:
+            for a in n.args:
+                acc = accessor_in(a)
+                if acc:
+                    return acc
+    return None
 
 
 # -- TYPEINFO-BALANCE --------------------------------------------------------------
@@ -586,3 +619,45 @@ def operation_scoped(check: Check, repo: Repo, mods: list[Module], rule: str = "
                          "reset in enter_operation_definition" if ok else
                          f"`self.{attr}` is filled per operation but never emptied in enter_operation_definition: entries of an earlier operation stay visible")
     check.note(operation_scoped_attrs=n)
+
+
+# -- the abort notice of validate() travels through report_error ---------------------------------------
+
+
+def report_discipline(check: Check, repo: Repo, mods: list[Module], rule: str = "REPORT-DISCIPLINE") -> None:
+    check.rule(
+        rule,
+        "report_error is how a rule hands over an error *and* how validate() stops the traversal once "
+        "max_errors is exceeded (it raises ValidationAbortedError, a GraphQLError, from inside report_error): "
+        "(1) no report_error call of a rule sits in a try whose handler catches GraphQLError / Exception / "
+        "BaseException without re-raising - the abort would be swallowed and the result would lack the "
+        "'too many errors' notice; (2) no rule reports from __init__ - rules are instantiated before "
+        "validate() enters the try that converts the abort, so the abort would leave validate() as an exception",
+    )
+    swallow = {"GraphQLError", "Exception", "BaseException", "ValidationAbortedError"}
+    n = 0
+    for mod in mods:
+        for fn in mod.functions():
+            calls = [c for c in walk_body(fn) if isinstance(c, ast.Call) and last_attr(c) == "report_error"]
+            for c in calls:
+                n += 1
+                bad = None
+                child: ast.AST = c
+                for a in ancestors(c):
+                    if isinstance(a, (*FuncDef, ast.Lambda)):
+                        break
+                    if isinstance(a, ast.Try) and child in a.body:
+                        for h in a.handlers:
+                            types = {unparse(h.type)} if h.type is not None and not isinstance(h.type, ast.Tuple) else (
+                                {unparse(e) for e in h.type.elts} if h.type is not None else {"BaseException"})
+                            reraises = any(isinstance(x, ast.Raise) and x.exc is None for x in ast.walk(h))
+                            if types & swallow and not reraises:
+                                bad = h
+                    child = a
+                in_init = getattr(fn, "name", "") == "__init__"
+                ok = bad is None and not in_init
+                check.ob(rule, c, f"{qualname_of(c)}: report_error(...)", ok,
+                         "abort propagates to validate()" if ok else
+                         (f"inside `except {unparse(bad.type) if bad.type is not None else ''}` (line {bad.lineno}) that does not re-raise: ValidationAbortedError is swallowed"
+                          if bad is not None else "reported while the rule is being constructed, before validate() is ready to convert the abort"))
+    check.note(report_error_calls=n)
